@@ -245,7 +245,7 @@ def shrink(case, key, budget=25.0):
 # ---------------------------------------------------------------------- the check
 def run(ctx):
     quick = ctx.tier == "quick"
-    n = 500 if quick else 20000
+    n = 500 if quick else 12000
     ctx.rule = ("oriented manifold polygon surfaces (<= 60/90 faces) from seeds (polygons, grids, annuli, tori, solids, "
                 "unions, hinges with prescribed normal pairs around both thresholds, folded roofs, flat lattices) under "
                 "face deletion / ears / chords / splits / isolated vertices, random renumbering; every border vertex, "
@@ -349,6 +349,8 @@ def run(ctx):
 
 
 def replay(ctx, data):
+    if "faces" in data:          # a bare case (corpus file)
+        data = {"case": data}
     if "case" not in data:
         print("replay file names no concrete input:", json.dumps(data)[:400])
         return 1
